@@ -13,7 +13,27 @@ import (
 // c01Tree: a /v/c tree with one populated field class, symbolic leaf values.
 func c01Tree() *V_C {
 	c := &V_C{}
-	switch symChoose("class", 13) {
+	switch symChoose("class", 15) {
+	case 14: // two-string-key list with two entries (key texts may contain spaces)
+		a1, b1, a2, b2 := symString("k2s.a1", 2), symString("k2s.b1", 2), symString("k2s.a2", 2), symString("k2s.b2", 2)
+		symAssume(len(a1) > 0 && len(b1) > 0 && len(a2) > 0 && len(b2) > 0)
+		symAssume(utf8.ValidString(a1) && utf8.ValidString(b1) && utf8.ValidString(a2) && utf8.ValidString(b2))
+		symAssume(a1 != a2 || b1 != b2)
+		a1c, b1c, a2c, b2c := a1, b1, a2, b2
+		c.K2S = map[V_C_K2S_Key]*V_C_K2S{
+			{K1: a1, K2: b1}: {K1: &a1c, K2: &b1c},
+			{K1: a2, K2: b2}: {K1: &a2c, K2: &b2c},
+		}
+	case 13: // union-keyed list with two entries whose keys are of different member types
+		ks, ku := c01S("kus", 1), symUint16("kuu")
+		// RFC 7950 9.12: a union value belongs to the first member type it matches, so a
+		// string member never holds text that is a valid uint16 (it would be the number)
+		symAssume(ks[0] < '0' || ks[0] > '9')
+		v1, v2 := "s", "u"
+		c.Ku = map[V_C_Ku_K_Union]*V_C_Ku{
+			UnionString(ks): {K: UnionString(ks), Val: &v1},
+			UnionUint16(ku): {K: UnionUint16(ku), Val: &v2},
+		}
 	case 0: // string, enum, identityref leaves
 		s := symString("cfg", 2)
 		symAssume(utf8.ValidString(s)) // YANG strings are Unicode
